@@ -87,6 +87,7 @@ class Sym:
 
 
 EXCEPTIONAL = set()
+TAU_PROBE = 7.0            # every constructor that takes a tau is given this value; the GroupSum it builds must receive it
 LAST_EXCEPTIONAL = []      # (class name, constructor arguments, input shape) of the exceptional scales met by the last translation
 
 
@@ -147,7 +148,34 @@ def _layers(model):
     seq = model if isinstance(model, torch.nn.Sequential) else getattr(model, "model", None)
     if not isinstance(seq, torch.nn.Sequential):
         _fail("model is neither a Sequential nor has a .model Sequential")
+    # a tau argument must reach the group sum (a class that takes tau and builds its GroupSum with another value is mis-plumbed)
+    try:
+        takes_tau = "tau" in inspect.signature(type(model).__init__).parameters
+    except (TypeError, ValueError):
+        takes_tau = False
+    if takes_tau:
+        gs = [m for m in seq if getattr(m, "kind", None) == "groupsum"]
+        if not gs or gs[-1].args.get("tau") != TAU_PROBE:
+            _fail(f"{type(model).__name__}: the tau argument ({TAU_PROBE}) does not reach the GroupSum (it gets {gs[-1].args.get('tau') if gs else None})")
     return "[" + ";\n     ".join(_spec(m) for m in seq) + "]"
+
+
+def _fixed_tau(cls, model):
+    """A fixed-scale subclass that passes a literal tau to its parent: the GroupSum of the built model must carry that value."""
+    import ast
+    import textwrap
+    try:
+        tree = ast.parse(textwrap.dedent(inspect.getsource(cls.__init__)))
+    except (OSError, TypeError):
+        return model
+    taus = [kw.value.value for n in ast.walk(tree) if isinstance(n, ast.Call) for kw in n.keywords
+            if kw.arg == "tau" and isinstance(kw.value, ast.Constant) and isinstance(kw.value.value, (int, float))]
+    if len(taus) == 1:
+        seq = model if isinstance(model, torch.nn.Sequential) else getattr(model, "model", None)
+        gs = [m for m in (seq or []) if getattr(m, "kind", None) == "groupsum"]
+        if not gs or float(gs[-1].args.get("tau")) != float(taus[0]):
+            _fail(f"{cls.__name__} asks for tau={taus[0]} but its GroupSum is built with tau={gs[-1].args.get('tau') if gs else None}")
+    return model
 
 
 def symbolic():
@@ -185,19 +213,19 @@ def symbolic():
             EXCEPTIONAL.clear()
 
         for nb in (1, 2, 3, 4, 5):
-            family(f"ClgnCifar10_nbits{nb}", lambda kk, nb=nb: mc.ClgnCifar10(n_bits=nb, k_num=kk, tau=1.0, **kw), f"{3 * nb}", "[32; 32]", 10,
-                   lambda k0, nb=nb: ("ClgnCifar10", dict(n_bits=nb, k_num=k0, tau=1.0), (3 * nb, 32, 32)))
-            family(f"ClgnCifar10Res_nbits{nb}", lambda kk, nb=nb: mc.ClgnCifar10Res(n_bits=nb, k_num=kk, tau=1.0, **kw), f"{3 * nb}", "[32; 32]", 10,
-                   lambda k0, nb=nb: ("ClgnCifar10Res", dict(n_bits=nb, k_num=k0, tau=1.0), (3 * nb, 32, 32)))
+            family(f"ClgnCifar10_nbits{nb}", lambda kk, nb=nb: mc.ClgnCifar10(n_bits=nb, k_num=kk, tau=TAU_PROBE, **kw), f"{3 * nb}", "[32; 32]", 10,
+                   lambda k0, nb=nb: ("ClgnCifar10", dict(n_bits=nb, k_num=k0, tau=TAU_PROBE), (3 * nb, 32, 32)))
+            family(f"ClgnCifar10Res_nbits{nb}", lambda kk, nb=nb: mc.ClgnCifar10Res(n_bits=nb, k_num=kk, tau=TAU_PROBE, **kw), f"{3 * nb}", "[32; 32]", 10,
+                   lambda k0, nb=nb: ("ClgnCifar10Res", dict(n_bits=nb, k_num=k0, tau=TAU_PROBE), (3 * nb, 32, 32)))
         out["ClgnCifar10Tiny"] = (_layers(mc.ClgnCifar10Tiny(k_num=k, **kw)), "9", "[32; 32]", 10)
-        out["ClgnCifar10Mini"] = (_layers(mc.ClgnCifar10Mini(k_num=k, tau=1.0, **kw)), "9", "[32; 32]", 10)
-        out["DlgnMnist"] = (_layers(md.DlgnMnist(neurons_per_layer=k * 10, tau=1.0, **kw)), "1", "[28; 28]", 10)
+        out["ClgnCifar10Mini"] = (_layers(mc.ClgnCifar10Mini(k_num=k, tau=TAU_PROBE, **kw)), "9", "[32; 32]", 10)
+        out["DlgnMnist"] = (_layers(md.DlgnMnist(neurons_per_layer=k * 10, tau=TAU_PROBE, **kw)), "1", "[28; 28]", 10)
         for nb, nl in ((2, 4), (5, 5)):
-            out[f"DlgnCifar10_{nb}_{nl}"] = (_layers(md.DlgnCifar10(n_bits=nb, n_layers=nl, neurons_per_layer=k * 10, tau=1.0, **kw)),
+            out[f"DlgnCifar10_{nb}_{nl}"] = (_layers(md.DlgnCifar10(n_bits=nb, n_layers=nl, neurons_per_layer=k * 10, tau=TAU_PROBE, **kw)),
                                              f"{3 * nb}", "[32; 32]", 10)
-        out["Dlgn_generic"] = (_layers(md.Dlgn(in_dim=12, n_layers=3, neurons_per_layer=k * 4, class_count=4, tau=1.0, **kw)), "1", "[3; 4]", 4)
-        out["CNN"] = (_layers(mc.CNN(class_count=10, tau=1.0, **kw)), "1", "[28; 28]", 10)
-        out["RandomlyConnectedNN"] = (_layers(mn.RandomlyConnectedNN(in_dim=12, k=k * 4, layers=3, class_count=4, tau=1.0, **kw)), "1", "[3; 4]", 4)
+        out["Dlgn_generic"] = (_layers(md.Dlgn(in_dim=12, n_layers=3, neurons_per_layer=k * 4, class_count=4, tau=TAU_PROBE, **kw)), "1", "[3; 4]", 4)
+        out["CNN"] = (_layers(mc.CNN(class_count=10, tau=TAU_PROBE, **kw)), "1", "[28; 28]", 10)
+        out["RandomlyConnectedNN"] = (_layers(mn.RandomlyConnectedNN(in_dim=12, k=k * 4, layers=3, class_count=4, tau=TAU_PROBE, **kw)), "1", "[3; 4]", 4)
         # every fixed-scale subclass must construct (argument plumbing) and fix k
         fixed = {}
         for nm in ("ClgnMnistSmall", "ClgnMnistMedium", "ClgnMnistLarge", "ClgnCifar10Small", "ClgnCifar10SmallRes", "ClgnCifar10Medium",
@@ -207,13 +235,13 @@ def symbolic():
             cls = getattr(mc, nm, None)
             if cls is None:
                 _fail("exported class missing: " + nm)
-            fixed[nm] = _layers(cls(**kw))
+            fixed[nm] = _layers(_fixed_tau(cls, cls(**kw)))
         for nm in ("DlgnMnistSmall", "DlgnMnistMedium", "DlgnCifar10Small", "DlgnCifar10Medium", "DlgnCifar10Large",
                    "DlgnCifar10Large2", "DlgnCifar10Large4"):
             cls = getattr(md, nm, None)
             if cls is None:
                 _fail("exported class missing: " + nm)
-            fixed[nm] = _layers(cls(**kw))
+            fixed[nm] = _layers(_fixed_tau(cls, cls(**kw)))
     finally:
         for mod, nm, real in saved:
             setattr(mod, nm, real)
